@@ -160,9 +160,11 @@ static bool run_once(verif::Schedule& sch, long run_idx, bool print) {
             if (!known) continue;
             eff[t].push_back(e);                         // recorded at invocation: a pending operation is part of the history
             verif::note("b", eff[t].size() - 1, 0);
-            if (op.kind == "push" && uq) { Item x((int)op.v); r = guarded_push([&] { uq->push(x); return true; }, e, op); }
-            else if (op.kind == "bpush" && bq) { Item x((int)op.v); r = guarded_push([&] { bq->push(x); return true; }, e, op); }
-            else if (op.kind == "btrypush" && bq) { Item x((int)op.v); r = guarded_push([&] { return bq->try_push(x); }, e, op); }
+            // every public spelling of an insertion is exercised (value mod 3: const& / && / emplace): they must all behave like push
+            const int var = (int)(((op.v % 3) + 3) % 3);
+            if (op.kind == "push" && uq) { Item x((int)op.v); r = guarded_push([&] { if (var == 0) uq->push(x); else if (var == 1) uq->push(std::move(x)); else uq->emplace(x); return true; }, e, op); }
+            else if (op.kind == "bpush" && bq) { Item x((int)op.v); r = guarded_push([&] { if (var == 0) bq->push(x); else if (var == 1) bq->push(std::move(x)); else bq->emplace(x); return true; }, e, op); }
+            else if (op.kind == "btrypush" && bq) { Item x((int)op.v); r = guarded_push([&] { return var == 0 ? bq->try_push(x) : var == 1 ? bq->try_push(std::move(x)) : bq->try_emplace(x); }, e, op); }
             else if (op.kind == "trypop") {
                 Item d; ++g_pops_inflight;
                 bool ok = uq ? uq->try_pop(d) : bq->try_pop(d);
